@@ -30,7 +30,7 @@ Config(s) ==
   /\ sid' = s.streams
   /\ used' = [x \in Streams |-> 0]
   /\ wAlive' = [x \in Streams |-> TRUE] /\ rAlive' = [x \in Streams |-> TRUE]
-  /\ total' = s.total /\ left' = s.total /\ got' = 0 /\ cancelled' = FALSE
+  /\ total' = s.total /\ left' = (IF s.total = Inf THEN RepLen ELSE s.total) /\ got' = 0 /\ cancelled' = FALSE
   /\ fail' = <<s.fail[1], s.fail[2]>>
   /\ pc' = [b \in Blocks |-> "unborn"]
   /\ winIn' = [b \in Blocks |-> 0] /\ winOut' = [b \in Blocks |-> 0]
@@ -81,7 +81,7 @@ MStep(s) ==
 FinalStep(s) ==
   /\ s.pt = "final" /\ mpc = "returned"
   /\ \A b \in Blocks : pc[b] = "done"
-  /\ s.got = got /\ s.prefix_ok = TRUE
+  /\ (total = Inf \/ s.got = got) /\ s.prefix_ok = TRUE
   /\ UNCHANGED vars
 
 TraceNext ==
